@@ -1,7 +1,7 @@
 """C19 -- built-in degree distributions are the probability mass functions they name."""
 from hypothesis import strategies as st
 
-from vlib.runner import Violation, call
+from vlib.runner import Violation, call, clone_point
 
 PID = "C19"
 RULE = ("Hypothesis-generated parameters (exponential a in (0.01,3000] (floats and ints); Poisson mean in (0,1000] (floats and ints), k up to 1000; integer-typed exponents; power law alpha in "
@@ -19,8 +19,8 @@ def strategy(tier):
     ks = st.lists(st.integers(0, 60), min_size=1, max_size=6)
     bigk = st.lists(st.one_of(st.integers(0, 100), st.integers(100, 10000)), min_size=1, max_size=6)
     return st.one_of(
-        st.fixed_dictionaries({"dist": st.just("exponential"), "a": st.one_of(st.floats(0.01, 10.0), st.floats(0.01, 10.0), st.floats(10.0, 3000.0), st.integers(1, 2000)), "ks": bigk, "np": st.sampled_from([False, False, "int64", "uint64", "uint16", "int32", "float", "float64"])}),
-        st.fixed_dictionaries({"dist": st.just("poisson"), "m": st.one_of(st.floats(0.01, 20.0), st.floats(20.0, 1000.0), st.integers(1, 300)), "ks": st.lists(st.one_of(st.integers(0, 100), st.integers(100, 1000)), min_size=1, max_size=6), "np": st.sampled_from([False, False, "int64", "uint64", "uint16", "int32", "float", "float64"])}),
+        st.fixed_dictionaries({"dist": st.just("exponential"), "a": st.one_of(st.floats(0.01, 10.0), st.floats(0.01, 10.0), st.floats(10.0, 3000.0), st.integers(1, 2000)), "ks": bigk, "np": st.sampled_from([False, False, "int64", "uint64", "uint16", "int32", "float", "float64"]), "refused_first": st.sampled_from([False, False, True])}),
+        st.fixed_dictionaries({"dist": st.just("poisson"), "m": st.one_of(st.floats(0.01, 20.0), st.floats(20.0, 1000.0), st.integers(1, 300)), "ks": st.lists(st.one_of(st.integers(0, 100), st.integers(100, 1000)), min_size=1, max_size=6), "np": st.sampled_from([False, False, "int64", "uint64", "uint16", "int32", "float", "float64"]), "refused_first": st.sampled_from([False, False, True])}),
         st.fixed_dictionaries({"dist": st.just("power_law"), "alpha": st.one_of(st.floats(2.0, 8.0), st.integers(2, 12)), "ks": bigk, "np": st.sampled_from([False, False, "int64", "uint64", "uint16", "int32", "float", "float64"])}),
         st.fixed_dictionaries({"dist": st.just("cutoff"), "alpha": st.one_of(st.floats(2.0, 6.0), st.integers(2, 8)),
                                "kappa": st.one_of(st.floats(0.01, 0.2), st.floats(0.1, 20.0), st.floats(20.0, 2000.0)), "ks": bigk, "np": st.sampled_from([False, False, "int64", "uint64", "uint16", "int32", "float", "float64"])}),
@@ -34,6 +34,14 @@ def check(case):
     mp.mp.dps = 40
     d = case["dist"]
     ks = list(case["ks"])
+    if case.get("refused_first"):
+        # the caller first asks for distributions that can not be built (and catches the error)
+        for bad in ((scale_free_cut_off, (2.5, 0)), (scale_free_cut_off, (2.0, 1e-320)), (scale_free_cut_off, (2.0, 1e-3))):
+            try:
+                fbad = bad[0](*bad[1])
+                fbad(3)
+            except Exception:
+                pass
     if d in ("power_law", "cutoff"):
         ks = [max(1, k) for k in ks]
     npk = case.get("np")
@@ -44,19 +52,19 @@ def check(case):
     conv = (lambda k: float(k)) if npk == "float" else ((lambda k: getattr(np, npk)(k)) if npk else (lambda k: k))
     if d == "exponential":
         a = mp.mpf(case["a"])
-        f = call("factory", exponential, case["a"])
+        f = clone_point(call("factory", exponential, case["a"]), case)
         exact = lambda k: (1 - mp.e ** (-a)) * mp.e ** (-a * k)
         rel = mp.mpf("1e-11")
         tail = lambda M: mp.e ** (-a * (M + 1))
     elif d == "poisson":
         m = mp.mpf(case["m"])
-        f = call("factory", poisson, case["m"])
+        f = clone_point(call("factory", poisson, case["m"]), case)
         exact = lambda k: mp.e ** (-m) * m ** k / mp.factorial(k)
         rel = mp.mpf("1e-11")
         tail = None
     elif d == "power_law":
         al = mp.mpf(case["alpha"])
-        f = call("factory", power_law, case["alpha"])
+        f = clone_point(call("factory", power_law, case["alpha"]), case)
         Z = mp.zeta(al)
         exact = lambda k: mp.mpf(k) ** (-al) / Z
         # first term below the code's stopping threshold; everything from there on may be truncated
@@ -70,7 +78,7 @@ def check(case):
     else:
         al, ka = mp.mpf(case["alpha"]), mp.mpf(case["kappa"])
         z = mp.e ** (-1 / ka)
-        f = call("factory", scale_free_cut_off, case["alpha"], case["kappa"])
+        f = clone_point(call("factory", scale_free_cut_off, case["alpha"], case["kappa"]), case)
         Li = mp.polylog(al, z)
         exact = lambda k: mp.mpf(k) ** (-al) * mp.e ** (-mp.mpf(k) / ka) / Li
         K0, part = 1, mp.mpf(0)
